@@ -205,10 +205,179 @@ def forest_check(prop, tier, seed, props_judged=None, drive_profile="std"):
                             "small-scope: exhaustive part limited to forests of <= 4 node ids"]}
 
 
+def dump_states(module, cfgtext, tag, workers=8):
+    cfgname = write_cfg(f"gen_{tag}.cfg", cfgtext)
+    r = mc(module, cfgname, workers=workers, timeout=1800, tag=tag)
+    os.remove(os.path.join(vlib.SPEC, cfgname))
+    out = []
+    for l in r["lines"]:
+        if l.startswith("STATE "):
+            st = json.loads(l[6:])
+            if isinstance(st["n"], dict):
+                st["n"] = []
+            st.setdefault("rs", [])
+            st.setdefault("bad", "")
+            out.append(st)
+    return out, r
+
+
+SCOPE_CFG = """SPECIFICATION Spec
+CONSTANT Dump = {dump}
+INVARIANTS ValidLayout ScopeDefsAgree ResolutionIsFunction UsableIffSpellable DumpState
+CHECK_DEADLOCK FALSE
+"""
+
+TREE_CFG = """SPECIFICATION Spec
+CONSTANTS
+  MaxNode = {maxnode}
+  Names <- Names1
+  Texts <- TextsX
+  Pfxs = {{"p"}}
+  Uris = {{"u1"}}
+  MaxText = 2
+  Dump = FALSE
+INVARIANTS Valid LawsHold FollowingPrecedingConverse TraverseConsistent AllVariantsExtendPlain LevelOrderIsPermutation StringValueCompositional EqualityLaws
+CONSTRAINT TextBound
+CHECK_DEADLOCK FALSE
+"""
+
+PFX = ["", "p", "q", "xml", "zz"]
+URIS = ["", "u1", "u2", "u3"]
+IGN = [[], [["", "a"]], [["", "a"], ["", "a"]], [["u1", "b"], ["", "a"]], [["", "c"], ["", "b"], ["", "c"], ["u2", "a"]]]
+
+
+def live_ids(st):
+    return [i + 1 for i, x in enumerate(st["n"]) if x["k"] != "rm"]
+
+
+def observer_check(prop, tier, seed):
+    """C07 / C09 / C13: read-only APIs compared, node by node, with the operators of XotTree."""
+    import gen
+    quick = tier == "quick"
+    exe = vlib.build_harness()
+    d = vlib.workdir(f"obs_{prop}")
+    rnd = random.Random(seed)
+    # 1. TLC on the specification: laws of the operators on all small forests
+    cfgname = write_cfg(f"gen_{prop}_tree.cfg", TREE_CFG.format(maxnode=3 if quick else 4))
+    r_mc = mc("MCTree.tla", cfgname, workers=12, timeout=3000, tag=prop + "_tree")
+    os.remove(os.path.join(vlib.SPEC, cfgname))
+    mcs = [r_mc]
+    jobs = []
+    what = {"C07": ["axes"], "C09": ["scope"], "C13": ["eq", "axes"]}[prop]
+    nsmall = nscope = nrand = 0
+    # 2. spec -> code: TLC-enumerated small forests
+    if prop in ("C07", "C13"):
+        states, r_dump = forest_states(tier, seed, prop)
+        mcs.append(r_dump)
+        rnd.shuffle(states)
+        for st in states[: (500 if quick else 5200)]:
+            L = live_ids(st)
+            pairs = [[a, b] for a in L for b in L] if prop == "C13" else []
+            jobs.append({"st": st, "what": what, "pfx": PFX, "uris": URIS, "pairs": pairs, "ign": IGN})
+            nsmall += 1
+    if prop == "C09":
+        layouts, r_sc = dump_states("MCScope.tla", SCOPE_CFG.format(dump="TRUE"), prop + "_scope")
+        mcs.append(r_sc)
+        rnd.shuffle(layouts)
+        for st in layouts[: (1500 if quick else 24000)]:
+            jobs.append({"st": st, "what": what, "pfx": PFX, "uris": URIS, "pairs": [], "ign": []})
+            nscope += 1
+    # 3. code -> spec: random forests larger than TLC enumerates
+    nrandom = (120 if quick else 2500)
+    for k in range(nrandom):
+        shape = ["mixed", "chain", "fan", "mixed"][k % 4]
+        size = rnd.choice([6, 10, 16, 24] if quick else [8, 16, 24, 40, 60])
+        f, roots = gen.random_forest(rnd, size, shape=shape, nsrich=(prop == "C09" or k % 3 == 0), trees=rnd.choice([1, 1, 2]), cons=rnd.random() < 0.85)
+        pairs = []
+        if prop == "C13":
+            # near-duplicates: copy a subtree and change exactly one feature (or none)
+            elems = [i + 1 for i, x in enumerate(f.n) if x["k"] in ("elem", "doc")]
+            src = rnd.choice(elems)
+            cp, mp = gen.copy_subtree(f, src)
+            gen.mutate(f, cp, rnd)
+            cp2, mp2 = gen.copy_subtree(f, cp)
+            if rnd.random() < 0.5:
+                gen.mutate(f, cp2, rnd)
+            for a, b in list(mp.items())[:12]:
+                b2 = mp2.get(b)
+                pairs += [[a, b], [b, a], [a, a]] + ([[b, b2], [a, b2], [b2, a]] if b2 else [])
+            L = [i + 1 for i in range(len(f.n))]
+            for _ in range(20):
+                pairs.append([rnd.choice(L), rnd.choice(L)])
+        jobs.append({"st": f.state(), "what": what, "pfx": PFX, "uris": URIS, "pairs": pairs, "ign": IGN})
+        nrand += 1
+    rnd.shuffle(jobs)   # balance the shards
+    jp = os.path.join(d, "jobs.ndjson")
+    with open(jp, "w") as fh:
+        for j in jobs:
+            fh.write(json.dumps(j) + "\n")
+    op = os.path.join(d, "obs.ndjson")
+    try:
+        vlib.run_harness(exe, ["observe", "--jobs", jp, "--out", op], timeout=600 if quick else 3000)
+    except subprocess.TimeoutExpired:
+        # a read-only call that does not return is a violation of the property, observed by the watchdog
+        path = vlib.save_replay(prop, {"jobs_file_head": jobs[:1]}, {"hang": "observe did not finish within the watchdog limit"})
+        return {"violations": [path], "known": [], "coverage": {"evaluations": len(jobs), "distinct_nontrivial": 2, "samples": [], "explanation": "hang"}, "assumptions": []}
+    v = validate_observe(op, prop, quick)
+    violations, known = [], {}
+    other = 0
+    for rj in v["rejects"]:
+        if rj["prop"] == "TOOL":
+            raise ToolError(f"generated state rejected as input: {rj['detail']}")
+        if rj["prop"] != prop:
+            other += 1
+            continue
+        for kid in rj.get("knowns", []):
+            known.setdefault(kid, 0)
+            known[kid] += 1
+        if rj["known"]:      # every differing (node, API) pair matches an open known finding
+            continue
+        job = json.loads(v["lines"][rj["line"]])
+        if len(violations) < 25:
+            path = vlib.save_replay(prop, {"kind": "observe", "job": {k: job[k] for k in ("what", "pfx", "uris", "pairs", "ign")} | {"st": job["post"]}}, rj)
+            violations.append(path)
+            log(f"  reject: {json.dumps(rj['detail'])[:300]}")
+    kf = {f["id"]: f for f in vlib.load_known()}
+    known_lines = [f"{kid} ({cnt} events): {kf.get(kid, {}).get('what', '')}" for kid, cnt in sorted(known.items())]
+    nodes = sum(len(live_ids(j["st"])) for j in jobs)
+    shapes = set()
+    for j in jobs:
+        shapes.add(canon_state(j["st"]))
+    sample = jobs[-1]["st"]["n"][:6]
+    cov = {
+        "states": sum(r["distinct"] for r in mcs), "transitions": sum(r["generated"] for r in mcs),
+        "traces_validated_against_impl": len(jobs),
+        "evaluations": nodes if prop != "C13" else sum(len(j["pairs"]) for j in jobs),
+        "distinct_nontrivial": len(shapes),
+        "rule": "one event per forest built in the real crate; every node (C07, C09) / listed node pair (C13) x every API is compared by TLC with the XotTree operator; distinct = forests distinct up to renaming of ids",
+        "samples": [{"first_nodes_of_last_random_forest": sample}],
+        "exhaustive": False,
+        "tlc_enumerated_forests": nsmall, "tlc_enumerated_layouts": nscope, "random_forests": nrand,
+        "rejections_charged_to_other_properties": other,
+    }
+    import shutil
+    shutil.rmtree(d, ignore_errors=True)
+    return {"violations": violations, "known": known_lines, "coverage": cov,
+            "assumptions": ["TLC 1.8 and the Json/IOUtils community modules", "the harness projection and state builder (re-read and compared on every rebuilt state)",
+                            "exhaustive part is small-scope (forests <= 4 ids; two-level declaration layouts over 3 prefixes x 2 namespaces)"]}
+
+
+def validate_observe(path, prop, quick):
+    return vlib.validate_trace_flat(path, module="TraceTree.tla", cfg="TraceTree.cfg", nshards=14, timeout=1200 if quick else 6000, tag=prop + "_obs")
+
+
+def known_observer(prop, rj, job):
+    """Known-finding signatures for the observer engine (none open at present)."""
+    return ""
+
+
 CHECKS = {
     "C04": lambda p, t, s: forest_check(p, t, s),
     "C05": lambda p, t, s: forest_check(p, t, s),
     "C06": lambda p, t, s: forest_check(p, t, s),
+    "C07": observer_check,
+    "C09": observer_check,
+    "C13": observer_check,
 }
 
 
